@@ -136,7 +136,7 @@ class Ctx:
             items.append("AL")
         return "\t".join(["CALL", f"{kind}:{style}", prov, self.scope_str(), *items])
 
-    def rand_call(self, rng, kind: str | None = None, styles=("pos", "kw", "kwrev", "mixed", "fwd", "kwonly", "posonly"), omit_p: float = 0.3) -> str:
+    def rand_call(self, rng, kind: str | None = None, styles=("pos", "kw", "kwrev", "mixed", "fwd", "fwdpos", "kwonly", "posonly"), omit_p: float = 0.3) -> str:
         """the context as a call with every feature of the call protocol drawn at random: function or method (whose instance is
         the scope provider: "self"), call style (a method also through the class with the receiver by keyword), trailing
         parameters left at their default value or passed although they have one"""
